@@ -595,9 +595,11 @@ theorem shared_meta_same (a b : Opd) :
   · cases a <;> simp [Opd.unshare, toList, unshare_metaGet, unshare_av, htop_meta]
   · cases a <;> simp [Opd.unshare, typeOf, htop_meta, unshare_layers, unshare_metaType]
   · cases a <;> simp [Opd.unshare, display, unshare_metaGet, unshare_av, unshare_layers, unshare_metaType]
-  · cases a <;> simp [Opd.unshare, displayNested, unshare_metaGet, unshare_av, unshare_layers, unshare_metaType]
   · cases a <;>
-      simp [Opd.unshare, debug, displayNested, unshare_metaGet, unshare_av, unshare_layers, unshare_metaType]
+      simp [Opd.unshare, displayNested, display, unshare_metaGet, unshare_av, unshare_layers, unshare_metaType]
+  · cases a <;>
+      simp [Opd.unshare, debug, displayNested, display, unshare_metaGet, unshare_av, unshare_layers,
+        unshare_metaType]
   · intro i
     cases a <;> simp [Opd.unshare, index, unshare_metaGet, unshare_av, htop_data]
   · intro i
@@ -1069,7 +1071,7 @@ theorem display_spec (m : MapD) :
   · intro tag n h; simp [display, h, invoke_fn, Beh.run, Beh.runAt, RV.toAV, needStr]
   · intro h; simp [display, h]
   · intro tag hd h
-    simp [debug, hd, displayNested, h, invoke_fn, Beh.run, Beh.runAt, RV.toAV]
+    simp [debug, hd, displayNested, display, h, invoke_fn, Beh.run, Beh.runAt, RV.toAV, needStr]
 
 
 /-! ## operand order, in general -/
@@ -1104,6 +1106,28 @@ theorem operand_order_other (m : MapD) (rhs : Opd) (tag : Name) (b : Beh) :
 
 example : Ordered .sub (.prim .num) (.map { top := { name := 1 } }) ⟨1, .mk .SubtractRhs, .obj 1, [.prim .num]⟩ :=
   Or.inr (Or.inl ⟨1, rfl⟩)
+
+
+/-- displaying a container renders each element exactly as displaying the element directly, and an
+error raised while rendering an element — a value thrown by its `@display`, a non-String result, a
+host method's error — reaches the script unchanged: same trace, same class, same value
+(/repo 9cbdb4e; F-C04-12). The `@debug` fallback goes the same way. -/
+theorem display_nested_same (o : Opd) :
+    displayNested o = display o ∧
+    (∀ m, o = .map m → m.metaGet .Debug = none → debug o = display o) := by
+  refine ⟨rfl, ?_⟩
+  intro m ho hd
+  subst ho
+  simp [debug, hd, displayNested]
+
+/-- in particular a `@display` that throws, or returns a non-String, gives the original error inside
+a container too -/
+theorem display_nested_error_unchanged (m : MapD) (tag : Name) :
+    (m.metaGet .Display = some (tag, .fn .throw) → (displayNested (.map m)).res = .err .thrown) ∧
+    (∀ n, m.metaGet .Display = some (tag, .fn (.ret (.int n))) → (displayNested (.map m)).res = .err .type) := by
+  refine ⟨?_, ?_⟩
+  · intro h; simp [displayNested, display, h, invoke_fn, Beh.run, Beh.runAt, needStr, CallRes.pass]
+  · intro n h; simp [displayNested, display, h, invoke_fn, Beh.run, Beh.runAt, RV.toAV, needStr]
 
 
 end KotoVerif.C17
